@@ -210,6 +210,10 @@ class _ReadSourceGenerator:
 
             # Everything else - basic and composite types (and arrays of them)
             else:
+                if current_block and self.align and field.offset is None:
+                    # After a dynamic field the padding between members depends on the runtime stream position,
+                    # it cannot be baked into one struct format: read such members one by one
+                    yield from flush()
                 if not current_block:
                     # A block starts at its first field's offset, which may lie beyond the end of the previous field
                     yield from align_to_field(field)
